@@ -1,10 +1,8 @@
 /-
   Driver ops for C05.
     clonesub : {value, key, with, impl, implChanged} → "agree" | "differ …"
-      `batch.cloneSub` against `Model/Batch.lean`.  Go iterates a map in the record case, so which of several
-      fields bearing the variable is replaced is not determined: the op accepts any member of the set of outcomes
-      the model can produce under some iteration order (`cloneSubAll`); where every record has at most one bearing
-      field that set is the singleton `{cloneSub …}` and the comparison is exact.
+      `batch.cloneSub` against `Model/Batch.lean`, exact (value after canonical rendering, and the change flag).
+      Since the repair of `clonesub-second-occurrence` the result no longer depends on Go's map iteration order.
     batch    : {policies, env (template + store), orders: [[ [name, [values…]] … ] …], impl} → "agree" | "differ …"
       the whole enumeration (`batchAuthorize`: staged partial evaluation, substitution, final authorization) for each
       candidate variable order (batch sorts by list length; ties are unspecified); agrees if the implementation's
@@ -15,27 +13,6 @@ import CedarGo.Model.Batch
 namespace CedarGo.Driver
 open Lean CedarGo
 
-/-- all outcomes of `cloneSub` over all iteration orders of the records involved -/
-partial def cloneSubAll (k : String) (v : Value) : Value → List (Value × Bool)
-  | .entity ty id => if ty == variableEntityType && id == k then [(v, true)] else [(.entity ty id, false)]
-  | .record kvs =>
-    -- any field that can change may be "the first one"
-    let cands := (List.range kvs.length).flatMap fun i =>
-      match kvs[i]? with
-      | none => []
-      | some (kk, vv) =>
-        ((cloneSubAll k v vv).filter (·.2)).map fun (vv', _) =>
-          (Value.record (kvs.take i ++ [(kk, vv')] ++ kvs.drop (i + 1)), true)
-    if cands.isEmpty then [(.record kvs, false)] else cands
-  | .set xs =>
-    let outs := xs.map (cloneSubAll k v)
-    if outs.any (fun os => os.any (·.2)) then
-      -- every member is rewritten; a member with several outcomes multiplies the possibilities
-      let combos := outs.foldr (fun os acc => os.flatMap fun o => acc.map (o.1 :: ·)) [[]]
-      combos.map fun ms => (mkSet ms, true)
-    else [(.set xs, false)]
-  | x => [(x, false)]
-
 def opCloneSub : Handler := fun _ j => do
   let r ← decValue (← field j "value")
   let k ← jHex (← field j "key")
@@ -44,13 +21,8 @@ def opCloneSub : Handler := fun _ j => do
   let implChanged ← jBool (← field j "implChanged")
   let m := cloneSub k v r
   let implS := showValue impl
-  if r.oneBearing k then
-    if showValue m.1 == implS && m.2 == implChanged then .ok "agree"
-    else .ok s!"differ (exact) model={showValue m.1},{m.2} impl={implS},{implChanged}"
-  else
-    let all := cloneSubAll k v r
-    if all.any (fun o => showValue o.1 == implS && o.2 == implChanged) then .ok "agree"
-    else .ok s!"differ (no iteration order gives it) model={showValue m.1},{m.2} impl={implS},{implChanged}"
+  if showValue m.1 == implS && m.2 == implChanged then .ok "agree"
+  else .ok s!"differ model={showValue m.1},{m.2} impl={implS},{implChanged}"
 
 def showVals (vals : List (String × Value)) : String :=
   ";".intercalate (sortDedup (vals.map fun kv => s!"{hex kv.1}={showValue kv.2}"))
